@@ -138,15 +138,30 @@ def run(ctx, rep):
                           'the COW merge %s can run without the L2 slice write guard: the new mapping can be flushed or '
                           'used by another task before the merged data is in place' % m)
     # C06.5
-    pops = [b for b in f.body_list if 'AsyncLruCache' in b.path and b.kind != 'Closure' and not b.is_coroutine and
-            any((t.get('fn') or '').endswith('HashMap::<K, V, S>::remove') or (t.get('fn') or '').endswith('::remove')
-                for _bi, t in b.calls()) and
-            any('fold' in (t.get('fn') or '') for _bi, t in b.calls())]
+    # the eviction routine: removes an entry from the map and hands it to its caller
+    from ..guard import Deps
+    pops = []
+    for b in f.body_list:
+        if 'AsyncLruCache' not in b.path or b.kind == 'Closure' or b.is_coroutine or '::tests::' in b.path:
+            continue
+        rem = [(bi, t) for bi, t in b.calls() if (t.get('fn') or '').endswith('::remove') and 'HashMap' in (t.get('fn') or '')]
+        if not rem:
+            continue
+        dp = Deps(P, b)
+        ret = set()
+        for rbi in b.reachable():
+            if b.blocks[rbi]['term']['k'] == 'return':
+                ret |= dp.of_place({'l': 0, 'p': []}, (rbi, 10 ** 6))
+        if any(x[0] == 'fn' and x[1].endswith('::remove') and 'HashMap' in x[1] for x in ret):
+            pops.append(b)
     rep.floor('eviction candidate selection functions', len(pops), 1)
     for b in pops:
-        closures = [c for c in f.body_list if c.kind == 'Closure' and c.path.startswith(b.path + '::')]
-        uses = [c for c in closures if any((t.get('fn') or '').endswith('Arc::<T, A>::strong_count') or
-                                           (t.get('fn') or '').endswith('::strong_count') for _bi, t in c.calls())]
+        pres = tuple([b.path + '::'] + [h + '::' for (c, h) in getattr(f, 'folded', []) if c == b.path])
+        closures = [c for c in f.body_list if c.kind == 'Closure' and c.path.startswith(pres)]
+        def counts(x):
+            return any((t.get('fn') or '').endswith('Arc::<T, A>::strong_count') or
+                       (t.get('fn') or '').endswith('::strong_count') for _bi, t in x.calls())
+        uses = [c for c in closures if counts(c)] + ([b] if counts(b) else [])
         ok = bool(uses)
         rep.ob('C06.5', 'selection in %s' % short(b.path), ok, '%d of %d selection closures test the reference count' % (len(uses), len(closures)))
         if not ok:
